@@ -36,7 +36,13 @@ def make(kind):
     data, segm, pos = scene()
     err = np.ones_like(data)
     if kind == 'apstats':
-        return ApertureStats(data, CircularAperture(pos, 4.0), error=err, local_bkg=np.array([0.1, 0.2, 0.0, 0.3]))
+        # the last aperture is degenerate (a mask leaves one row of it): its covariance gets the thin-source regularisation, which
+        # must stay a per-source matter
+        m = np.zeros(data.shape, dtype=bool)
+        px, py = pos[3]
+        m[py - 5:py + 6, px - 5:px + 6] = True
+        m[py, px - 5:px + 6] = False
+        return ApertureStats(data, CircularAperture(pos, 4.0), error=err, mask=m, local_bkg=np.array([0.1, 0.2, 0.0, 0.3]))
     w = WCS(naxis=2); w.wcs.crpix = [25, 20]; w.wcs.cdelt = [-1e-4, 1e-4]; w.wcs.crval = [10.0, 20.0]; w.wcs.ctype = ['RA---TAN', 'DEC--TAN']
     kw = dict(error=err, background=np.full_like(data, 0.1), wcs=w, localbkg_width=4)
     if kind == 'srccat_det':
